@@ -18,7 +18,9 @@
 //     the `< exit 1` `< exit 2` order of every 2-thread run shows - is not relied upon.)
 //
 // stdin ops / stdout blocks: see lean/Driver/OwnerDrv.lean and vlib/owner_common.py.  Per op: lines, then `--`.
-//   `< ev l accept|msg c|close c`, `< fn l`, `< end l`, `< exit l`, `< destroy`  schedule/environment facts (for the model)
+//   `< ev l accept|msg c|close c`, `< fn l`, `< end l`, `< exit l`, `< destroy`, `< gone l`  schedule/environment facts (for
+//                             the model); `< gone l`: the EventLoop OBJECT of thread l is destroyed (functors stranded
+//                             in its queue are destroyed without being run)
 //   `t <c> <kind> <thread>`   observable trace (kind: new up msg down erase destroyed dtor; thread l<k> or f)
 //   `# ...`                   for the oracle / humans (not compared)
 //   `st live=<ids|-> srv=<0|1>`
@@ -256,7 +258,12 @@ static void pointHook(const char* name, const void* obj) {
   }
   if (t_thr < 0) return;
   LoopThread& s = g_lt[t_thr];
-  if (strcmp(name, "EventLoopThread::threadFunc:loopReturned") == 0) { s.exited = true; return; }
+  if (strcmp(name, "EventLoopThread::threadFunc:loopReturned") == 0) {
+    // threadFunc is about to return: the io thread's EventLoop object goes out of scope (on this thread)
+    s.exited = true;
+    emitf("< gone %d", t_thr);
+    return;
+  }
   if (obj != s.loop) return;
   if (strncmp(name, "EventLoop::loop:", 16) == 0) {
     const char* w = name + 16;
@@ -480,6 +487,8 @@ static void baseMain(int L) {
       delete g_srv;      // joins the io threads (each runs free from the moment it is told to quit)
       g_srv = NULL;
     }
+    // the EventLoop object goes out of scope: functors stranded in its queue are destroyed without being run
+    emit("< gone 0");
   }
   g_lt[0].exited = true;
   sem_post(&g_arrived);
